@@ -276,7 +276,7 @@ Proof.
   split; [repeat split|repeat split].
 Qed.
 
-(* hypotheses of C04_opassign_prog (e = a call that is logged), of the unbound variant, of the
+(* hypotheses of C04_opassign_prog (e = a call of a builtin), of the unbound variant, of the
    assignment-free variant *)
 Example C04_ex_opassign_prog : forall O,
   let e := Node (OFunctionIdentifier (s2l "len"%string)) [Node (OConst (VString ex_x)) []] in
@@ -284,6 +284,18 @@ Example C04_ex_opassign_prog : forall O,
   eval_mut O e ex_ctx [] = (Ok (VInt 1), ex_ctx, []) /\ no_assign e = true /\
   get_value empty_hashmap ex_x = None /\ eval_mut O e empty_hashmap [] = (Ok (VInt 1), empty_hashmap, []).
 Proof. intros. repeat split. Qed.
+
+(* ... and by an e WITH effects: it assigns another variable and calls a user function (logged); x keeps its value *)
+Example C04_ex_opassign_prog_effect : forall O,
+  let rec := s2l "rec"%string in
+  let y := s2l "y"%string in
+  let c := mkctx KHashMap [(ex_x, VInt 1)] [(rec, fun a => Ok a)] false in
+  let e := Node OChain [Node ORootNode [Node OAssign [Node (OVariableIdentifierWrite y) []; Node (OConst (VInt 2)) []]];
+                        Node ORootNode [Node (OFunctionIdentifier rec) [Node (OConst (VInt 3)) []]]] in
+  assign_base OAddAssign = Some OAdd /\ get_value c ex_x = Some (VInt 1) /\
+  exists c1, eval_mut O e c [] = (Ok (VInt 3), c1, [(rec, VInt 3)]) /\
+             get_value c1 ex_x = Some (VInt 1) /\ get_value c1 y = Some (VInt 2) /\ get_value c y = None.
+Proof. intros. split; [reflexivity|]. split; [reflexivity|]. eexists. repeat split. Qed.
 
 Example C04_ex_opassign_parse :
   build_operator_tree (s2l "x += (x = 5; 1)"%string) =
